@@ -87,7 +87,7 @@ M = [
   "        if files.len() != self.0.len() {\n            return false;\n        }\n", "",
   "a deleted declared file goes unnoticed"),
  ("hash-only-first-buffer", ["C02"], "src/engine/incremental/resources_state/fs.rs",
-  "            Hasher::write(&mut hasher, &buffer[..count]);\n", "            Hasher::write(&mut hasher, &buffer[..count]);\n            break;\n",
+  "Hasher::write(&mut hasher, &buffer[..count]);", "Hasher::write(&mut hasher, &buffer[..count]);\n        break;",
   "only the first 1024 bytes of a file are hashed"),
  ("outputs-not-compared", ["C02"], "src/engine/incremental/mod.rs",
   "            eq(self.output.as_ref(), target_output),", "            eq(self.output.as_ref(), None),",
